@@ -4,6 +4,8 @@ import (
 	"bytes"
 	"fmt"
 	"strings"
+	"sync/atomic"
+	"time"
 
 	"github.com/synnaxlabs/cesium"
 	"github.com/synnaxlabs/cesium/verifx"
@@ -46,7 +48,11 @@ func streamSequence(h *harness.H, c int, l *layout, r *prng.R) bool {
 		h.Inconclusive("open-stream-iterator-failed")
 		return true
 	}
-	defer func() { _ = top.Close() }()
+	defer func() {
+		if top != nil {
+			_ = top.Close()
+		}
+	}()
 	shadows := make([]*verifx.UnaryIterator, len(keys))
 	lastViews := make([]telem.TimeRange, len(keys))
 	for i, k := range keys {
@@ -94,17 +100,43 @@ func streamSequence(h *harness.H, c int, l *layout, r *prng.R) bool {
 			h.Count("auto_steps_skipped_by_crash_guard", 1)
 			continue
 		}
-		ok, fr := runStream(top, cm)
-		trace = append(trace, fmt.Sprintf("%s -> ok=%v", cm, ok))
+		// The shadow unary iterators run first: a panic inside the iterator would leave
+		// the public Iterator call blocked forever (its goroutine ends without an ack).
+		sress := make([]stepResult, len(keys))
 		anyOK, allOK := false, true
-		for j, k := range keys {
-			sres := runUnary(shadows[j], cm)
-			lastViews[j] = sres.View
-			if sres.OK {
+		for j := range keys {
+			sress[j] = runUnary(shadows[j], cm)
+			if sress[j].Panic != "" {
+				h.Count("stream_sequences_cut_by_unary_panic", 1)
+				// Observation (not a verdict, it rests on a wall-clock watchdog): what does
+				// the public iterator do for the command that panics inside a unary
+				// iterator? Tried once per run.
+				if hangProbe.CompareAndSwap(false, true) {
+					if _, _, hung := runStreamWatchdog(top, cm, 10*time.Second); hung {
+						h.Count("stream_call_hung_after_internal_panic", 1)
+						h.Inconclusive("cesium.Iterator call did not return within 10s after a panic inside a unary iterator")
+						top = nil
+					}
+				}
+				return true
+			}
+			lastViews[j] = sress[j].View
+			if sress[j].OK {
 				anyOK = true
 			} else {
 				allOK = false
 			}
+		}
+		ok, fr, hung := runStreamWatchdog(top, cm, 20*time.Second)
+		if hung {
+			// a wall-clock watchdog never decides: counted, not a verdict
+			h.Inconclusive("stream-call-did-not-return-within-20s-watchdog")
+			top = nil
+			return true
+		}
+		trace = append(trace, fmt.Sprintf("%s -> ok=%v", cm, ok))
+		for j, k := range keys {
+			sres := sress[j]
 			if !isStep(cm) {
 				continue
 			}
@@ -150,4 +182,26 @@ func streamSequence(h *harness.H, c int, l *layout, r *prng.R) bool {
 		h.Distinct("stream|" + strings.Join(l.log, ";") + "|" + fmt.Sprint(keys) + "|" + strings.Join(trace, ";"))
 	}
 	return true
+}
+
+// runStreamWatchdog runs one command on the public iterator; the 20 s watchdog only
+// exists so that a call that never returns does not hang the whole check.
+var hangProbe atomic.Bool
+
+func runStreamWatchdog(it *cesium.Iterator, c cmd, d time.Duration) (ok bool, fr cesium.Frame, hung bool) {
+	type out struct {
+		ok bool
+		fr cesium.Frame
+	}
+	ch := make(chan out, 1)
+	go func() {
+		o, f := runStream(it, c)
+		ch <- out{o, f}
+	}()
+	select {
+	case o := <-ch:
+		return o.ok, o.fr, false
+	case <-time.After(d):
+		return false, cesium.Frame{}, true
+	}
 }
